@@ -29,6 +29,8 @@ func init() {
 	register(&Family{Name: "ledgersettle", Gen: genSettleHist, Run: runSettleHist}) // C05: the same histories, ledger monitors
 	register(&Family{Name: "lifecycle", Gen: genSettleHist, Run: runSettleHist})    // C12: the same histories, life-cycle and vote monitors
 	register(&Family{Name: "coversettle", Gen: genSettleHist, Run: runSettleHist})  // C04: the same histories, the dispute account covers what it owes
+	register(&Family{Name: "nohaltsettle", Gen: genSettleHist, Run: runSettleHist}) // C02: the same histories never stop the chain
+	register(&Family{Name: "framesettle", Gen: genSettleHist, Run: runSettleHist}) // C19: the same histories, pay-outs go to the party they are owed to
 	// C05: fees paid from stake against the model of FeefromReporterStake (mostly the directed variant, richer groups)
 	register(&Family{Name: "feestake", Gen: func(r *Rng, i int, tier string) []string {
 		settleRich = true
@@ -392,6 +394,12 @@ func genSettleHist(r *Rng, i int, tier string) []string {
 	for round := 0; round < 3; round++ {
 		add("blk %d", r.Pick(2*86400000+1000, 3*86400000+1000, 86400000))
 		add("blk 1000")
+		if r.Chance(1, 2) {
+			// tips and stake change after the dispute's block: voting power of every round is taken as of that block, not as of the
+			// block in which a later round starts
+			tx("tip %s q%d %d", r.PickS("a4", "a3"), r.Intn(3), r.Range(1000, 5e6))
+			tx("del %s v%d %d", r.PickS("a1", "a0", "a3"), r.Intn(nv), odd())
+		}
 		if r.Chance(1, 3) {
 			id++
 			tx("disp %s R0 %d %d %d", payers[r.Intn(len(payers))], cat, r.Pick(1e12, 1e12, 5000), 0)
